@@ -10,3 +10,37 @@ func VerifSharedPollRevokeKeys(n *Node, channel string, keys []string) {
 	}
 	n.sharedPollManager.SharedPollRevokeKeys(channel, keys, nil, nil)
 }
+
+// VerifKeyedStats reports, for one shared-poll channel: keys in the SharedPollManager's itemIndex, keys in the
+// keyed hub and subscriber entries in the keyed hub. Read-only.
+func VerifKeyedStats(n *Node, channel string) (polledKeys int, hubKeys int, hubSubscribers int) {
+	if n.sharedPollManager != nil {
+		n.sharedPollManager.mu.RLock()
+		s, ok := n.sharedPollManager.channels[channel]
+		n.sharedPollManager.mu.RUnlock()
+		if ok {
+			s.mu.Lock()
+			polledKeys = len(s.itemIndex)
+			s.mu.Unlock()
+		}
+	}
+	if hub := n.keyedManager.getHub(channel); hub != nil {
+		hub.mu.RLock()
+		hubKeys = len(hub.items)
+		for _, subs := range hub.items {
+			hubSubscribers += len(subs)
+		}
+		hub.mu.RUnlock()
+	}
+	return
+}
+
+// VerifClientTrackedKeys returns how many keys of a shared-poll channel the connection's keyed state tracks. Read-only.
+func VerifClientTrackedKeys(c *Client, channel string) int {
+	c.mu.RLock()
+	defer c.mu.RUnlock()
+	if c.keyed == nil {
+		return 0
+	}
+	return len(c.keyed.trackedKeys[channel])
+}
